@@ -1,5 +1,5 @@
 (* C10 — Command-line reference substitution is exact.  Property theorems only. *)
-From Coq Require Import String List Bool Permutation.
+From Coq Require Import String List Bool Permutation NArith.
 Import ListNotations.
 Require Import V.Lib.PyStr V.Args.Model V.Args.Proofs V.Args.Reports V.Args.ValueModel V.Args.Values V.Args.Minimal.
 Open Scope string_scope.
@@ -166,6 +166,41 @@ Proof.
 Qed.
 Print Assumptions C10_value_output.
 
+(* Output references to a component WITHOUT file part: the stdout of the producer.  A producer that does
+   not repeat: the contents of <location>/out.stdout.  A repeating producer (RepeatingEngine archives the
+   stdout of every execution as <location>/streams/<n>.stdout): the contents of the archived stream whose
+   index n is the greatest AS AN INTEGER among the streams present - whatever the numbers of digits of the
+   indices (9 < 10, 99 < 100), whatever else the directory holds (streams of the other type, out.stdout);
+   the empty string while nothing is archived.  In both cases: trailing newlines removed and nothing else,
+   '' while the file is missing, an error if it is a directory. *)
+Definition stdout_value (fs : fsys) (f : string) : option string :=
+  match lookup fs f with
+  | Some (File c) => Some (rstrip_nl c)
+  | Some Dir => None
+  | None => Some ""
+  end.
+Theorem C10_value_stdout : forall fs r,
+  s_method r = "output" -> s_direct r = false -> s_file r = None ->
+  (s_repeat r = false -> arg_value fs r = stdout_value fs (path_join (s_loc r) "out.stdout")) /\
+  (s_repeat r = true ->
+     (stream_indices fs (streams_dir r) = [] -> arg_value fs r = Some "") /\
+     (forall m, In m (stream_indices fs (streams_dir r)) ->
+                (forall i, In i (stream_indices fs (streams_dir r)) -> (i <= m)%N) ->
+                arg_value fs r = stdout_value fs (stream_path r m))) /\
+  (forall c, stdout_value fs c = Some "" \/ stdout_value fs c = None \/
+             exists x, lookup fs c = Some (File x) /\ stdout_value fs c = Some (rstrip_nl x) /\
+                       (forall u, rstrip_nl x <> u ++ String nl "")).
+Proof.
+  intros fs r M D F. pose proof (value_stdout fs r M D F) as V. split; [|split].
+  - intros R. rewrite (path_to_stdout_plain fs r R) in V. exact V.
+  - intros R. destruct (path_to_stdout_stream fs r R) as [E L]. split.
+    + intros I. rewrite (E I) in V. exact V.
+    + intros m I Mx. rewrite (L m I Mx) in V. exact V.
+  - intros c. unfold stdout_value. destruct (lookup fs c) as [[x|]|]; [|right; left; reflexivity|left; reflexivity].
+    right. right. exists x. repeat split. apply rstrip_nl_last.
+Qed.
+Print Assumptions C10_value_stdout.
+
 (* End to end: for references given as they are declared (producer, file part, method; spellings
    and values computed by the models of absoluteReference / relativeReference / resolve), under
    `separated` the resolved command line is the argument string in which every token that is one of
@@ -228,11 +263,11 @@ Definition ex_ps : list piece :=
   [ Lit "-x "; Tok "AB:ref"; Lit " --in="; Tok "stage0.A:ref"; Lit "/f.txt "; Tok "stage1.A:ref";
     Lit " n="; Tok "stage0.B/o.txt:output"; Lit " "; Tok "AB:ref" ].
 Definition ex_srefs : list sref :=
-  [ mk_sref "stage1.A" "A" None "ref" false "/I/stages/stage1/A";
-    mk_sref "stage1.AB" "AB" None "ref" false "/I/stages/stage1/AB";
-    mk_sref "stage0.A" "A" None "ref" false "/I/stages/stage0/A";
-    mk_sref "data/A.txt" "data/A.txt" None "copy" true "/I/data/A.txt";
-    mk_sref "stage0.B" "B" (Some "o.txt") "output" false "/I/stages/stage0/B" ].
+  [ mk_sref "stage1.A" "A" None "ref" false "/I/stages/stage1/A" false;
+    mk_sref "stage1.AB" "AB" None "ref" false "/I/stages/stage1/AB" false;
+    mk_sref "stage0.A" "A" None "ref" false "/I/stages/stage0/A" false;
+    mk_sref "data/A.txt" "data/A.txt" None "copy" true "/I/data/A.txt" false;
+    mk_sref "stage0.B" "B" (Some "o.txt") "output" false "/I/stages/stage0/B" false ].
 Definition ex_fs : fsys :=
   [ ("/I/stages/stage0/B", Dir); ("/I/stages/stage0/B/o.txt", File ("42" ++ String nl (String nl ""))) ].
 Definition ex_ps2 : list piece :=
@@ -245,6 +280,22 @@ Definition ex_fs4 : fsys := [ ("/I/stages/stage0/B", Dir); ("/I/stages/stage0/B/
 Definition ex_ps2' : list piece :=
   [ Lit "--in="; Tok "stage0.A:ref"; Lit "/f.txt n="; Tok "stage0.B/o.txt:output"; Lit " "; Tok "AB:ref";
     Lit " "; Tok "stage1.A:ref" ].
+(* a repeating producer after its 11th execution (streams 6 .. 10 kept; the streams of the other type and
+   out.stdout are not what the reference is worth) and a stage-1 consumer of its stdout, in both spellings of
+   a same-stage repeating producer whose streams directory holds 99 and 100 *)
+Definition ex_mon : sref := mk_sref "stage0.AB" "AB" None "output" false "/I/stages/stage0/AB" true.
+Definition ex_mon1 : sref := mk_sref "stage1.BB" "BB" None "output" false "/I/stages/stage1/BB" true.
+Definition ex_fs_rep : fsys :=
+  [ ("/I/stages/stage0/AB", Dir); ("/I/stages/stage0/AB/out.stdout", File "partial");
+    ("/I/stages/stage0/AB/streams", Dir);
+    ("/I/stages/stage0/AB/streams/9.stdout", File ("it 9" ++ String nl ""));
+    ("/I/stages/stage0/AB/streams/10.stdout", File ("it 10" ++ String nl ""));
+    ("/I/stages/stage0/AB/streams/6.stdout", File "it 6"); ("/I/stages/stage0/AB/streams/7.stdout", File "it 7");
+    ("/I/stages/stage0/AB/streams/8.stdout", File "it 8"); ("/I/stages/stage0/AB/streams/11.stderr", File "w");
+    ("/I/stages/stage1/BB", Dir); ("/I/stages/stage1/BB/streams", Dir);
+    ("/I/stages/stage1/BB/streams/99.stdout", File "it 99"); ("/I/stages/stage1/BB/streams/100.stdout", File "it 100") ].
+Definition ex_ps_rep : list piece :=
+  [ Lit "--last "; Tok "stage0.AB:output"; Lit " mine="; Tok "BB:output"; Lit " again="; Tok "stage0.AB:output" ].
 Example C10_nonvacuous :
   separatedb ex_refs ex_ps = true /\ unambiguousb ex_refs ex_ps = true /\
   resolve_args ex_refs (flatten ex_ps) =
@@ -267,5 +318,11 @@ Example C10_nonvacuous :
       Some "--in=/I/stages/stage0/A/f.txt n=s/\s+/\1&/g /I/stages/stage1/AB /I/stages/stage1/A";
       Some "--in=/I/stages/stage0/A/f.txt n= /I/stages/stage1/AB /I/stages/stage1/A";
       None;
-      Some "--in=/I/stages/stage0/A/f.txt n=42 /I/stages/stage1/AB /I/stages/stage1/A" ].
+      Some "--in=/I/stages/stage0/A/f.txt n=42 /I/stages/stage1/AB /I/stages/stage1/A" ] /\
+  (* repeating producers: the stream with the greatest integer index *)
+  stream_indices ex_fs_rep (streams_dir ex_mon) = [9; 10; 6; 7; 8]%N /\
+  path_to_stdout ex_fs_rep ex_mon = Some "/I/stages/stage0/AB/streams/10.stdout" /\
+  separated_onb ex_fs_rep [ex_mon; ex_mon1] ex_ps_rep = true /\
+  session [ex_mon; ex_mon1] (flatten ex_ps_rep) [ex_fs_rep; ex_fs3] =
+    [ Some "--last it 10 mine=it 100 again=it 10"; Some "--last  mine= again=" ].
 Proof. vm_compute. repeat split; reflexivity. Qed.
